@@ -1097,6 +1097,9 @@ class TermCanvas(Canvas):
                 if idx + 2 < len(attrs) and attrs[idx + 1] == 5:
                     # 8 bit color specification
                     color = attrs[idx + 2]
+                    if color > 255:  # not a palette index: ignore this colour
+                        idx += 3
+                        continue
                     colors = max(256, colors)
                     if attr == 38:
                         fg = color
@@ -1105,6 +1108,9 @@ class TermCanvas(Canvas):
                     idx += 2
                 elif idx + 4 < len(attrs) and attrs[idx + 1] == 2:
                     # 24 bit color specification
+                    if max(attrs[idx + 2 : idx + 5]) > 255:  # not an RGB triple: ignore this colour
+                        idx += 5
+                        continue
                     color = (attrs[idx + 2] << 16) + (attrs[idx + 3] << 8) + attrs[idx + 4]
                     colors = 2**24
                     if attr == 38:
